@@ -110,6 +110,9 @@ func defaultProxyServer(ctx context.Context, handler http.Handler, tlsConfig *tl
 	svr.MetricsRegistry = PrometheusRegistry
 
 	svr.HTTPServer.IdleTimeout = parseHTTPIdleTimeout()
+	// HTTP/2 connections are served by HTTP2Server directly (not through
+	// http2.ConfigureServer), so it does not inherit the idle timeout by itself
+	svr.HTTP2Server.IdleTimeout = svr.HTTPServer.IdleTimeout
 	svr.HTTPServer.ReadTimeout = parseHTTPReadTimeout()
 	svr.HTTPServer.WriteTimeout = parseHTTPWriteTimeout()
 	svr.TLSHandshakeTimeout = parseTLSHandshakeTimeout()
